@@ -273,7 +273,7 @@ class RegexModels(Models):
                 raise Unsupported("symbolic regex pattern")
             text = "".join(chr(ch.v) for ch in s.chars)
             try:
-                miniregex.parse(text)
+                miniregex.parse_captures(text)
             except Unsupported:
                 try:
                     pyre.compile(text)
@@ -304,7 +304,10 @@ class RegexModels(Models):
             pat = "".join(chr(ch.v) for ch in rx.fields[0].chars)
             s = as_str(a[1])
             if not all(ch.concrete for ch in s.chars):
-                raise Unsupported("replace_all on symbolic text")
+                # symbolic text: fine as long as the pattern cannot match it on this path
+                if c.decide(miniregex.search(pat, list(s.chars))):
+                    raise Unsupported("replace_all with an actual match on symbolic text")
+                return Agg("Cow", "Borrowed", [s])
             text = "".join(chr(ch.v) for ch in s.chars)
             if pyre.search(pat, text) is None:
                 return Agg("Cow", "Borrowed", [s])
